@@ -18,6 +18,7 @@ LEVELS = {
  "C15": ("exploration", "4.C15", "Per (class, parameter) cell (fixed grid reaching every sampler branch + random cells): declared density/pmf compared pointwise with scipy closed forms, sign/support/normalisation checked by piecewise quadrature against closed-form masses or window sums, and a seeded sample of 20000 real draws tested with KS and chi-square under a two-stage rule (flag p<1e-5, confirm on a fresh 300000-draw sample at p<1e-7); cdf/icdf/erf_inv monotone, consistent with the density and mutually inverse. Held = no cell failed.", "Statistical: false-alarm bound 1e-12 per test; shape errors below KS distance ~0.005 are not detectable; scipy closed forms are the reference."),
  "C02": ("exploration", "4.C02", "Thousands of generated model programs on the float, int and Duration clocks are executed by the real simulator and by a 200-line reference DEVS interpreter; the handler log (tag, clock inside the handler), the outcome and pending-size effect of every scheduling request, every write of the clock (attribute tap) and the final clock are compared bit-for-bit. Held = all histories agreed.", "Programs without failing handlers under start() to the replication end; an illegal request counts as refused when it raises and the pending size is unchanged."),
  "C03": ("exploration", "4.C03", "Generated programs x generated segmentation schedules (bounded runs exclusive/inclusive, steps, pauses forced deterministically by parking a handler at a gate while stop() is issued, cuts at/between event times, at warm-up, at/beyond the end, before the clock): after every segment the executed events, clock, state, pending size and END_REPLICATION notification are compared with the reference interpreter, and the concatenation with one uninterrupted run. Held = all segments and compositions agreed.", "Open points of the statement are accepted in every reading (listed in the evidence assumptions); pauses land between events, never inside the library's own transitions (that is C04)."),
+ "C05": ("fault_enumeration", "4.C05", "For every generated program each single executed event is made to fail in turn (all singles), then pairs and random subsets, at varying positions inside the handler, under log/warn/pause strategies and start / bounded / step / mixed drivers; after every run segment the executed events, state, clock and pending size are compared with the reference interpreter (continue = as if the handler had returned at the raise; pause = stop right after the failing event, resume runs exactly the rest). Held = all fault sets explored agreed.", "Fault = exception raised by the handler; WARN_AND_END/EXIT outside the statement; a failing step may return or raise DSOLError."),
 }
 
 def main():
